@@ -29,7 +29,8 @@ Record dyn (T : Type) := mk_dyn {
 }.
 Arguments mk_dyn {T}. Arguments d_extent {T}. Arguments d_width {T}. Arguments d_height {T}. Arguments d_res {T}.
 
-(* result of freeze: the AreaDefinition's extent and size, and whether +pm=180 was put into the projection *)
+(* result of freeze: the AreaDefinition's extent and size, and whether the prime meridian of the requested CRS was moved by
+   180 degrees (modify_crs; +pm=180 for a Greenwich-based CRS) *)
 Record frozen (T : Type) := mk_frozen { f_area : area T; f_pm180 : bool }.
 Arguments mk_frozen {T}. Arguments f_area {T}. Arguments f_pm180 {T}.
 
